@@ -272,6 +272,30 @@ theorem truncated_is_error (p : Bytes) (k : Nat) (hk : k < (encode p).length) :
       have := ih k (by omega)
       simpa using this
 
+/-- a body that the framing layer ends with an error (message shorter than its declared
+Content-Length) before the encoding is complete ends in THAT error - the decoder never turns
+it into a clean end -/
+theorem source_error_surfaces (p : Bytes) (k e : Nat) (hk : k < (encode p).length) :
+    (codec.total ⟨(encode p).take k, .err e⟩).2 = .err e := by
+  rw [total_eq]
+  simp only
+  induction p generalizing k with
+  | nil =>
+    simp [encode] at hk
+    subst hk
+    simp [restW, trunc]
+  | cons b p ih =>
+    have he : encode (b :: p) = 1 :: b :: encode p := by simp [encode]
+    rw [he] at hk ⊢
+    match k with
+    | 0 => simp [restW, trunc]
+    | 1 => simp [restW, trunc]
+    | k + 2 =>
+      simp only [List.take_succ_cons, restW]
+      simp only [List.length_cons] at hk
+      have := ih k (by omega)
+      simpa using this
+
 /-- bytes after the end marker are an error -/
 theorem trailing_is_error (p : Bytes) (x : UInt8) (tl : Bytes) :
     (codec.total ⟨encode p ++ x :: tl, .eof⟩).2 = errCorrupt := by
